@@ -818,6 +818,9 @@ fn followups(hz: usize) -> Vec<(String, String)> {
 /// hostile zone (None for honest cases themselves).
 fn run_and_judge(desc: &CaseDesc, honest: Option<&Run>, l: &mut Local) -> Run {
     l.eval();
+    // unbounded recursion in the recursor overflows the stack and kills the process: the
+    // supervising parent (vcore::supervise) reports the marked case as a termination violation
+    vcore::mark_case(l.worker, || desc.to_json().to_string());
     let inet = Arc::new(desc.internet());
     let run = execute_caught(inet.clone(), desc.limits, desc.case_rand, &desc.parsed_queries());
     let wit = || {
@@ -1055,6 +1058,7 @@ fn termination_families(thorough: bool) -> Vec<(String, Vec<(usize, Spec, (Strin
 }
 
 fn main() {
+    vcore::supervise("C19");
     let ctx = Ctx::from_args("C19", "fault_enumeration");
     let thorough = !ctx.quick();
 
@@ -1071,6 +1075,17 @@ fn main() {
                 let (count, class) = stub_run(nn, lp, per, pres);
                 if count > 8 {
                     l.violation("stub-alias-chasing-unbounded", &format!("{count} upstream queries, result {class}"), || case.clone());
+                }
+                return;
+            }
+            // replay of a process abort: re-run every case a worker was executing when the
+            // process died (the culprit aborts again and the supervisor reports it again)
+            if let Some(list) = case.get("crashed_cases").and_then(|v| v.as_array()) {
+                for c in list {
+                    if c.get("graph").is_some() {
+                        let desc = CaseDesc::from_json(c);
+                        run_and_judge(&desc, None, l);
+                    }
                 }
                 return;
             }
